@@ -1318,6 +1318,9 @@ package scipipe
 //@   loop 2 invariant valid: forall o string :: o in t.OutIPs ==> t.OutIPs[o] != nil && fresh(t.OutIPs[o]) && allocated(t.OutIPs[o]) && allocated(t.OutIPs[o].BaseIP) && validPath(t.OutIPs[o].path)
 //@   loop 2 invariant stream: forall o string :: o in t.OutIPs ==> (t.OutIPs[o].doStream <==> (o in portInfos && portInfos[o].doStream))
 //@   loop 2 invariant distinct: forall o1 string, o2 string :: o1 in t.OutIPs && o2 in t.OutIPs && o1 != o2 ==> t.OutIPs[o1] != t.OutIPs[o2]
-//@   loop 2 invariant drained: forall k string :: joinPort(portInfos, k) ==> k in t.subStreamIPs && chanRecvN(subChan(inIPs, k)) == chanTotal(subChan(inIPs, k)) && len(t.subStreamIPs[k]) == chanTotal(subChan(inIPs, k)) - old(chanRecvN(subChan(inIPs, k))) && (forall j int :: 0 <= j && j < len(t.subStreamIPs[k]) ==> t.subStreamIPs[k][j] == chanInAt(subChan(inIPs, k), old(chanRecvN(subChan(inIPs, k))) + j))
+//@   loop 2 invariant drained-a: forall k string :: joinPort(portInfos, k) ==> k in t.subStreamIPs
+//@   loop 2 invariant drained-b: forall k string :: joinPort(portInfos, k) ==> chanRecvN(subChan(inIPs, k)) == chanTotal(subChan(inIPs, k))
+//@   loop 2 invariant drained-c: forall k string :: joinPort(portInfos, k) ==> len(t.subStreamIPs[k]) == chanTotal(subChan(inIPs, k)) - old(chanRecvN(subChan(inIPs, k)))
+//@   loop 2 invariant drained-d: forall k string, j int :: joinPort(portInfos, k) && 0 <= j && j < len(t.subStreamIPs[k]) ==> t.subStreamIPs[k][j] == chanInAt(subChan(inIPs, k), old(chanRecvN(subChan(inIPs, k))) + j)
 //@   loop 2 invariant nothing-sent: forall c chan *FileIP :: !fresh(c) ==> chanSentN(c) == old(chanSentN(c))
 //@   loop 2 invariant no-effects: effCreated == old(effCreated) && effMkdir == old(effMkdir) && effRenamed == old(effRenamed) && effRemoved == old(effRemoved) && effExec == old(effExec)
